@@ -75,6 +75,10 @@ func splitOutcome(logs []string) (string, []string) {
 // first violation.
 func Explore(opts Options, mk func() *Exec) *Stats {
 	opts.defaults()
+	if opts.MinBound > opts.Bound || (opts.MinBound == 0 && opts.SoftBudget == 0) {
+		opts.MinBound = opts.Bound
+	}
+	started := time.Now()
 	st := &Stats{BoundCompleted: -1, outcomes: map[uint64]struct{}{}}
 	st.ExecsPerLevel = make([]int64, opts.Bound+1)
 	levels := make([][]item, opts.Bound+2)
@@ -82,7 +86,17 @@ func Explore(opts Options, mk func() *Exec) *Stats {
 	for lvl := 0; lvl <= opts.Bound; lvl++ {
 		stack := levels[lvl]
 		levels[lvl] = nil
+		if lvl > opts.MinBound && opts.SoftBudget > 0 && time.Since(started) > opts.SoftBudget/4 {
+			// the next level would not fit: stop at a level boundary
+			st.Exhaustive = true
+			return st
+		}
 		for len(stack) > 0 {
+			if lvl > opts.MinBound && opts.SoftBudget > 0 && st.Execs%64 == 0 && time.Since(started) > opts.SoftBudget {
+				st.CapHit = fmt.Sprintf("soft budget in optional level %d", lvl)
+				st.Exhaustive = true
+				return st
+			}
 			it := stack[len(stack)-1]
 			stack = stack[:len(stack)-1]
 			if opts.MaxExecs > 0 && st.Execs >= opts.MaxExecs {
